@@ -6,8 +6,8 @@ Local Open Scope N_scope.
 
 (* partial: a configured starting LIB (exclusive or inclusive) coherent with the history, LIB declarations in
    the class lib_ok_b, no empty parent ids; ANY handler oracle.  c04_full (Spec/C04_Spec.v) is the full
-   statement; missing: hold-until-LIB discovery mode (LNone), histories with empty parent ids or a starting
-   LIB incoherent with the history. *)
+   statement; missing: hold-until-LIB discovery mode (LNone), a starting LIB incoherent with the history
+   (histories with empty parent ids: next theorem). *)
 Theorem c04_moving_lib_partial : c04_moving_lib_statement.
 Proof. exact c04_moving_lib_proved. Qed.
 Print Assumptions c04_moving_lib_partial.
